@@ -1079,6 +1079,41 @@ fn dispatch<C: CI>(op: Op, a: &[&[u8]]) -> R<Vec<Vec<u8>>> {
             let (c1, c2, mp, bp, ch) = <C as BlsElGamal>::seal_scalar_with_proof(pk.0, m.0, Some(gen), None, own_rng()).map_err(e)?;
             Ok(vec![pt(&c1), pt(&c2), Vec::from(&SecretKey::<C>(mp)), Vec::from(&SecretKey::<C>(bp)), Vec::from(&SecretKey::<C>(ch))])
         }
+        Op::ScShareOverBase => {
+            fn unchecked<G: GroupEncoding>(b: &[u8]) -> R<G> {
+                let mut repr = G::Repr::default();
+                if repr.as_ref().len() != b.len() {
+                    return Err("length".into());
+                }
+                repr.as_mut().copy_from_slice(b);
+                Option::<G>::from(G::from_bytes_unchecked(&repr)).ok_or_else(|| "not on curve".to_string())
+            }
+            let u: PkPt<C> = unchecked(arg(a, 0)?)?;
+            let s = SecretKeyShare::<C>::try_from(arg(a, 1)?).map_err(e)?;
+            let ct = SignCryptCiphertext::<C> { u, v: vec![0u8; 32], w: SigPt::<C>::default(), scheme: SignatureSchemes::Basic };
+            Ok(vec![Vec::from(&ct.create_decryption_share(&s).map_err(e)?)])
+        }
+        Op::PairingRaw => {
+            fn unchecked<G: GroupEncoding>(b: &[u8]) -> R<G> {
+                let mut repr = G::Repr::default();
+                if repr.as_ref().len() != b.len() {
+                    return Err("length".into());
+                }
+                repr.as_mut().copy_from_slice(b);
+                Option::<G>::from(G::from_bytes_unchecked(&repr)).ok_or_else(|| "not on curve".to_string())
+            }
+            use blsful::inner_types::Group;
+            let mut pairs: Vec<(SigPt<C>, PkPt<C>)> = vec![];
+            let mut i = 0;
+            while i + 1 < a.len() {
+                pairs.push((unchecked(a[i])?, unchecked(a[i + 1])?));
+                i += 2;
+            }
+            let all = <C as Pairing>::pairing(&pairs);
+            let half = pairs.len() / 2;
+            let split = <C as Pairing>::pairing(&pairs[..half]) + <C as Pairing>::pairing(&pairs[half..]);
+            Ok(vec![flag(all.is_identity().into()), flag(split == all)])
+        }
         Op::MultiSigVerifyKeys => {
             let ms = MultiSignature::<C>::try_from(arg(a, 0)?).map_err(e)?;
             let pks = many(a, 2, |b| PublicKey::<C>::try_from(b).map_err(e))?;
